@@ -29,8 +29,8 @@ ASSUMPTIONS = ["remove_trait is excluded (documented to emit no event)",
                "when a step itself changes whether the mutated observable is reached (container comes to contain its owner) the "
                "expected count for that step's own event may be judged on the state before or after the step"]
 
-LINKS = ["child", "children", "table", "group", "+metac", "+metal", "mlist"]
-CONTAINER_LINKS = ("children", "table", "group", "+metal", "mlist")
+LINKS = ["child", "children", "table", "group", "+metac", "+metal", "mlist", "tlists"]
+CONTAINER_LINKS = ("children", "table", "group", "+metal", "mlist", "tlists")
 INST_ATTRS = ["child", "mchild"]
 LIST_ATTRS = ["children", "mlist"]
 SKIP = (None, Undefined, Uninitialized)
@@ -46,6 +46,8 @@ class Node(HasTraits):
     # link traits selected by metadata ("+metac", "+metal" used as intermediate links)
     mchild = Instance(HasTraits, metac=True)
     mlist = List(Instance(HasTraits), metal=True)
+    # containers inside a container: Dict(Str, List(...)), observed as tlists.items.items
+    tlists = Dict(Str, List(Instance(HasTraits)))
 
     def __repr__(self):
         if "_owner" in self.__dict__:
@@ -65,6 +67,8 @@ def steps_of(path):
     for (l, n) in links:
         out.append(("meta", n, l[1:]) if l.startswith("+") else ("t", l, n))
         if l in CONTAINER_LINKS:
+            out.append(("items", n))
+        if l == "tlists":
             out.append(("items", n))
     if end == "items_end":
         out.append(("t", "children", True))
@@ -86,6 +90,8 @@ def to_text(paths):
             s += l + ("." if n else ":")
             if l in CONTAINER_LINKS:
                 s += "items" + ("." if n else ":")
+            if l == "tlists":
+                s += "items" + ("." if n else ":")
         s += "children.items" if end == "items_end" else end
         outs.append(s)
     return ",".join(outs)
@@ -101,15 +107,14 @@ def to_expr(paths):
             if s[0] == "t":
                 e = trait(s[1], notify=s[2]) if e is None else e.trait(s[1], notify=s[2])
             elif s[0] == "items":
-                # DSL `items` = trait named items (optional) | list | dict | set items
-                alt = None
-                for mk in ("trait_items", "list_items", "dict_items", "set_items"):
-                    if e is None:
-                        raise ValueError("items first")
-                    a = (e.trait("items", notify=s[1], optional=True) if mk == "trait_items"
-                         else getattr(e, mk)(notify=s[1], optional=True))
-                    alt = a if alt is None else (alt | a)
-                e = alt
+                # DSL `items` = trait named items (optional) | dict | list | set items, joined in series with what came
+                # before (no duplication of the prefix)
+                from traits.observation.api import dict_items, list_items, set_items
+                if e is None:
+                    raise ValueError("items first")
+                alt = (trait("items", notify=s[1], optional=True) | dict_items(notify=s[1], optional=True)
+                       | list_items(notify=s[1], optional=True) | set_items(notify=s[1], optional=True))
+                e = e.then(alt)
             elif s[0] == "any":
                 e = anytrait(notify=s[1]) if e is None else e.anytrait(notify=s[1])
             elif s[0] == "meta":
@@ -209,8 +214,11 @@ OP = st.one_of(
     st.tuples(st.just("slice_mult"), O, st.integers(0, 2), st.integers(0, 3), st.integers(0, 3), LA),
     st.tuples(st.just("slice_mult"), O, st.integers(0, 2), st.integers(0, 3), st.integers(0, 3), LA),
     st.tuples(st.just("reverse"), O, LA), st.tuples(st.just("clear"), O, LA),
+    st.tuples(st.just("tl_set"), O, st.sampled_from("ab"), st.lists(P, max_size=2)),
+    st.tuples(st.just("tl_same"), O, st.sampled_from("ab")), st.tuples(st.just("tl_same"), O, st.sampled_from("ab")),
+    st.tuples(st.just("tl_append"), O, st.sampled_from("ab"), P), st.tuples(st.just("tl_pop"), O, st.sampled_from("ab")),
     st.tuples(st.just("read_defaults"), O),
-    st.tuples(st.just("add_trait"), O, st.sampled_from(["extra", "extra_meta", "xchild"]), P),
+    st.tuples(st.just("add_trait"), O, st.sampled_from(["extra", "extra_meta", "xchild", "xmchild", "xmchild"]), P),
 ).map(list)
 
 
@@ -248,6 +256,8 @@ def run(case, ctx):
             o.children.append(t)
         elif kind in ("mlist", "+metal"):
             o.mlist.append(t)
+        elif kind == "tlists":
+            o.tlists.setdefault("a", []).append(t)
         elif kind == "table":
             o.table["a"] = t
         else:
@@ -349,6 +359,8 @@ def run(case, ctx):
                     n.add_trait(name, Int(3))
                 elif name == "extra_meta":
                     n.add_trait(name, Int(3, meta=True))
+                elif name == "xmchild":
+                    n.add_trait(name, Instance(HasTraits, metac=True))      # a LINK trait selected by metadata, added later
                 else:
                     n.add_trait(name, Instance(HasTraits))
                 n.__dict__.setdefault("_added", set()).add(name)
@@ -357,8 +369,8 @@ def run(case, ctx):
                 # an added trait matched by `*` / `+meta` becomes observed: check by changing it
                 r = Reach(root, paths)
                 del events[:]
-                if name == "xchild":
-                    n.xchild = pool[op[3] % npool]
+                if name in ("xchild", "xmchild"):
+                    setattr(n, name, pool[op[3] % npool])
                 else:
                     setattr(n, name, getattr(n, name) + 1)
                 exp = 1 if r.notify.get(("t", id(n), name)) else 0
@@ -369,7 +381,7 @@ def run(case, ctx):
                 probe(op)
                 continue
             # materialise the defaults the op reads, before computing reachability
-            _ = (n.child, n.children, n.table, n.group, n.mchild, n.mlist)
+            _ = (n.child, n.children, n.table, n.group, n.mchild, n.mlist, n.tlists)
             r = Reach(root, paths)
             del events[:]
             tgt = lambda i: pool[i % npool]
@@ -404,6 +416,16 @@ def run(case, ctx):
             elif k in ("table_set", "table_pop"):
                 c = n.table
                 keys = [("c", id(c))]
+            elif k in ("tl_set", "tl_same"):
+                if k == "tl_same" and op[2] not in n.tlists:
+                    continue
+                c = n.tlists
+                keys = [("c", id(c))]
+            elif k in ("tl_append", "tl_pop"):
+                if op[2] not in n.tlists or (k == "tl_pop" and not n.tlists[op[2]]):
+                    continue
+                c = n.tlists[op[2]]
+                keys = [("c", id(c))]
             else:
                 c = n.group
                 keys = [("c", id(c))]
@@ -411,7 +433,9 @@ def run(case, ctx):
             if self_ref and known_f16:
                 ctx.exclude("self-referential step (F16)")
                 break
-            before_snapshot = (list(c) if isinstance(c, list) else dict(c) if isinstance(c, dict) else set(c)) if c is not None else None
+            plain_c = lambda x: (list(x) if isinstance(x, list) else {kk: (list(vv) if isinstance(vv, list) else vv) for kk, vv in x.items()}
+                                 if isinstance(x, dict) else set(x))
+            before_snapshot = plain_c(c) if c is not None else None
             # ---- perform
             try:
                 if k == "set_child":
@@ -460,6 +484,17 @@ def run(case, ctx):
                     c.reverse()
                 elif k == "clear":
                     c.clear()
+                elif k == "tl_set":
+                    c[op[2]] = [tgt(i) for i in op[3]]
+                elif k == "tl_same":
+                    # an EQUAL but not identical list under an existing key: its items must be hooked, the old list's not
+                    c[op[2]] = list(c[op[2]])
+                    interesting = True
+                    ctx.label("equal-inner-list-reassigned")
+                elif k == "tl_append":
+                    c.append(tgt(op[3]))
+                elif k == "tl_pop":
+                    c.pop()
                 elif k == "table_set":
                     c[op[2]] = tgt(op[3])
                 elif k == "table_pop":
@@ -472,7 +507,7 @@ def run(case, ctx):
                 ctx.fail("step/raised" + ("/self-referential" if (self_ref or tainted[0]) else ""),
                          "%r: %r raised %r" % (text, op, e))
             if c is not None:
-                after_snapshot = list(c) if isinstance(c, list) else dict(c) if isinstance(c, dict) else set(c)
+                after_snapshot = plain_c(c)
                 changed = before_snapshot != after_snapshot or (k == "reverse" and len(before_snapshot) > 0)
                 exp = ("c", c, changed)
             r2 = Reach(root, paths)
